@@ -37,6 +37,7 @@ type wrapCtx struct {
 	hoistedTypes map[string]types.Type
 	static     map[string]bool // statically computed flags
 	notes      []string
+	df         *directiveFacts
 }
 
 var sharedCell = regexp.MustCompile(`^(v\d+|p\d+|p\d+PanicRecover|p\d+PanicStacktrace)$`)
@@ -717,6 +718,14 @@ func inAnyLoop(x *vc.Exec, wfn *ssa.Function, cf *ssa.Function) bool {
 // schedParamsOK: each field of SchedulerParams stored by the wrapper is the
 // load of a hoisted cell (Concurrency, ContinueOnError) or the scheduler
 // emitter obtained from emitter.SchedulerInit.
+// directiveOf: the source directive of the wrapper (parsed once per wrapper).
+func (g *gpass) directiveOf(wc *wrapCtx) *directiveFacts {
+	if wc.df == nil {
+		wc.df = readDirective(g.testsDir, wc.w.fn)
+	}
+	return wc.df
+}
+
 func (g *gpass) schedParamsOK(wc *wrapCtx) bool {
 	ok := true
 	for _, b := range wc.w.fn.Blocks {
@@ -736,10 +745,26 @@ func (g *gpass) schedParamsOK(wc *wrapCtx) bool {
 			name := pt.Elem().Underlying().(*types.Struct).Field(fa.Field).Name()
 			switch name {
 			case "Concurrency", "ContinueOnError":
+				// the field is set iff the directive has the option, and from that option's hoisted argument
+				want := ""
+				if df := g.directiveOf(wc); df != nil && df.found {
+					want = df.concurrencyLeaf
+					if name == "ContinueOnError" {
+						want = df.continueLeaf
+					}
+					if want == "" {
+						ok = false
+						wc.notes = append(wc.notes, "SchedulerParams."+name+" is set although the directive has no such option")
+						continue
+					}
+				}
 				if _, isConst := st.Val.(*ssa.Const); isConst {
 					continue // a hoisted constant expression, folded by SSA construction
 				}
 				if wc.hoistedVals[st.Val] {
+					if want != "" && wc.hoistedValName[st.Val] != want {
+						ok = false
+					}
 					continue
 				}
 				ld, isLd := st.Val.(*ssa.UnOp)
@@ -748,7 +773,7 @@ func (g *gpass) schedParamsOK(wc *wrapCtx) bool {
 					continue
 				}
 				al, isAl := ld.X.(*ssa.Alloc)
-				if !isAl || !wc.hoisted[al] {
+				if !isAl || !wc.hoisted[al] || (want != "" && al.Comment != want) {
 					ok = false
 				}
 			case "Emitter":
